@@ -461,7 +461,7 @@ proof fn lemma_pruned_cong(groups: Seq<Vec<usize>>, n: int, d1: graph::Dag, d2: 
 pub open spec fn strs(v: Seq<String>) -> Seq<Seq<char>> { Seq::new(v.len(), |i: int| v[i]@) }
 pub open spec fn group_strs(v: Seq<Vec<String>>) -> Seq<Seq<Seq<char>>> { Seq::new(v.len(), |i: int| strs(v[i]@)) }
 
-//!fn src/app/analyze.rs analyze rules=R1,R3,R12 props=C01,C03
+//!fn src/app/analyze.rs analyze rules=R1,R3,R12 props=C01,C03,C04
 pub(crate) fn analyze(
     input: &AnalyzeInput,
     index: &mut core::Index<'_>,
@@ -479,8 +479,8 @@ pub(crate) fn analyze(
 @        // a checkpoint, the graph's labelled layers as they are
 @        res matches Ok(o) ==> (!input.show_target_groups ==> o.target_groups is None),
 @        res matches Ok(o) ==> ((input.show_target_groups && changes is Some) ==> o.target_groups is Some && group_strs(o.target_groups->Some_0@)
-@            == pruned(old(index).dag.groups_spec(), old(index).dag.groups_spec().len() as int, old(index).dag, union_targets(changes->Some_0@, *old(index), input.show_change_targets))), // [C03]
-@        res matches Ok(o) ==> ((input.show_target_groups && changes is None) ==> o.target_groups is Some && o.target_groups->Some_0@ == old(index).dag.labeled_spec()), // [C03]
+@            == pruned(old(index).dag.groups_spec(), old(index).dag.groups_spec().len() as int, old(index).dag, union_targets(changes->Some_0@, *old(index), input.show_change_targets))), // [C03,C04]
+@        res matches Ok(o) ==> ((input.show_target_groups && changes is None) ==> o.target_groups is Some && o.target_groups->Some_0@ == old(index).dag.labeled_spec()), // [C03,C04]
 {
     let mut checkpointed = false;
     let (analyzed_changes, changed_targets) = par_analyze(&changes, index, input);
